@@ -1,4 +1,6 @@
-"""C14 — batch API access control, exhaustive over routes x callers x id bindings (+ Hypothesis-varied ids/bodies).
+"""C14 — batch API access control, exhaustive over routes x callers x id bindings (+ Hypothesis-varied ids/bodies) and, on top of
+that static part, request HISTORIES against one application instance in which membership, account state and the set of batches change
+between requests (section "histories" below).
 
 Every route of `front_end.routes` is enumerated at run time from a real aiohttp Application (vlib/batchsim/httpapp.py) and hit
 in-process through `Application._handle` with the production middlewares.  The auth service is the only fake: bearer /
@@ -27,7 +29,21 @@ RULE = ('state: batch B owned by alice in billing project bp1 (members alice, bo
         'snapshot, outbound calls, background notifications and events are unchanged, no SQL ran for unauthenticated callers and only SELECTs '
         'otherwise. Positive direction: public routes for everyone, member read/cancel/delete, owner create/commit, developer/auth '
         'administration, authenticated lists -> not 401/403 (and not 404 on the core routes with existing ids); list endpoints must not show B '
-        'to non-members. Non-trivial: a denied request on a route that mutates state for an authorised caller.')
+        'to non-members. Non-trivial: a denied request on a route that mutates state for an authorised caller. '
+        'HISTORIES (one front-end process, one database, one virtual clock per case; 6-30 steps built by construction from a model of '
+        'membership carried along while drawing): batch creation through the real routes by owners in bp1/bp2/bp3, requests on every '
+        'billing_project_users_only route (read, cancel, delete; API and UI; bearer and cookie) by alice/bob/carol/dave/ina, owner-only '
+        'update creation, billing-project reads and batch / project lists, membership changes through the real administration routes '
+        '(developer or auth user, API or UI) or the same INSERT/DELETE on billing_project_users, the same routes tried by ordinary '
+        'users, the auth service switching a user inactive/active, virtual time 1 ms..40 s. After EVERY request the statement is '
+        'evaluated against the rows as they are at that moment (billing_project_users, batches.billing_project/user/deleted): allowed '
+        '-> not refused (and not 404 on the core routes of a live batch); otherwise error status, full snapshot / outbound calls / '
+        'notifications unchanged and no write SQL. Shapes laid out on purpose and counted as classes: revoked_then_retry (granted, '
+        'membership removed, same user same batch again: immediately, within 10 s, after 10 s; read and cancel/delete), '
+        'granted_then_retry (refused, added, same user same batch again), the same for batch creation (revoked/granted_then_create) '
+        'and billing reads (_then_bpread), deactivated/reactivated_then_retry. Plus a systematic pass: every such route x {owner, '
+        'member} x {0 s, 3 s}: granted, removed, again, re-added, again. Non-trivial history: at least one request whose required answer '
+        'differs from the answer the same user got for the same batch / project earlier in the history.')
 ASSUMPTIONS = [
     'the auth service returns userdata only for active users (its SQL filters state = active); the batch side is exercised with state '
     '"inactive" userdata (the one state gear.auth rejects) and with 401 answers',
@@ -36,8 +52,17 @@ ASSUMPTIONS = [
     'requests hit Application._handle (router + middlewares + handler); the HTTP parser / RequestHandler error mapping is not exercised: an '
     'uncaught exception is counted as a 500 answer',
     'allowed requests whose SQL is outside the minimysql dialect (list / billing queries) are counted as not judged, not as harness errors',
+    'histories: membership and ownership live in the batch database and must be honoured by the very next request; the account state '
+    'lives at the auth service, whose answer the front end may reuse for the lifetime of its userdata cache (read from '
+    'front_end.auth._userdata_cache.lifetime_ns, 10 s): for that long after a state change either state is accepted (whichever the '
+    'answer shows, the rest of the statement is applied to it), afterwards only the new one',
+    'histories: time.monotonic_ns as seen by gear.time_limited_max_size_cache (the cache class of the service) follows the virtual clock '
+    'of the world, like time_msecs; a memo that keeps its own wall-clock time source is only exercised at age 0',
+    'histories: a 403 that carries its own reason on a request with a deleted batch (e.g. cancelling it: "Job Group (1, 0) does not '
+    'exist") is a business-rule answer, not a refusal of the member',
 ]
-TRUSTED = ['vlib/batchsim/httpapp.py (app assembly, fake auth service, mocked requests)', 'vlib/minimysql', 'route classification predicates in checks/c14.py']
+TRUSTED = ['vlib/batchsim/httpapp.py (app assembly, fake auth service, mocked requests)', 'vlib/minimysql', 'route classification predicates in checks/c14.py',
+           'history interpreter and per-step expectation in checks/c14.py (run_history: reads billing_project_users / batches rows before each request)']
 
 MISSING_BATCH = 987654
 MEMBERS = {'bp1': {'alice', 'bob', 'ina'}, 'bp2': {'alice'}, 'bp3': {'carol'}}
@@ -233,9 +258,24 @@ class Ctx:
         self.loop.run_until_complete(self._build(self.state or 'staged'))
 
     def close(self):
+        uninstall_clock(self)
         if self.w is not None:
             self.loop.run_until_complete(self.w.close())
             self.w = None
+
+    def hist_begin(self):
+        """a fresh application instance for one history: the static world plus a user who is in no project; gear's cache clock is virtual
+        and strictly later than anything an earlier instance in this process has seen"""
+        self.rebuild()
+        w = self.w
+        ud = w.userdata('dave')
+        ud['id'] = 100 + len(w.tokens)
+        ud['namespace_name'] = 'default'
+        w.tokens['tok-dave'] = ud
+        self.clock_base_ns = getattr(self, 'clock_base_ns', 0) + 10 ** 15
+        install_clock(self)
+        cache = getattr(w.m.fe.auth, '_userdata_cache', None)
+        self.auth_grace_ms = int(getattr(cache, 'lifetime_ns', 10 ** 10)) // 10 ** 6
 
     # ---- request construction ------------------------------------------------------------------
     def path_for(self, tmpl, bind):
@@ -510,12 +550,538 @@ def run_one(ctx, case, hname=None, generated=False):
     return judge(c2, exp, resp, changed, side_changed, hname, generated=generated)
 
 
+# ---------------------------------------------------------------------------------------------- histories
+# A case is a short sequence of steps against ONE application instance (one front-end process, one database, one virtual clock):
+#   ['create', user, bp, fast]                 POST /api/v1alpha/batches/create(-fast) by `user` in `bp` (batch ref = 1 + index among creates)
+#   ['req', user, [method, tmpl], ref, cookie] a billing_project_users_only route on batch `ref` (ref 0 = B of the static world)
+#   ['own', user, ref]                         POST .../updates/create (owner-only)
+#   ['member', 'add'|'remove', bp, user, via]  membership change: via api_dev / api_auth / ui_dev = the real administration routes called
+#                                              by the developer / the auth user; via db = the same INSERT / DELETE on billing_project_users
+#   ['try_admin', actor, op, bp, user, ui]     the same administration routes called by an ordinary user
+#   ['state', user, 'inactive'|'active']       the auth service's answer for the user's session changes
+#   ['tick', ms]                               virtual time passes (time_msecs and the monotonic clock of gear's caches)
+#   ['list', user, tmpl] / ['bpread', user, bp]
+# After every request the expectation is computed from the database rows AS THEY ARE at that moment (billing_project_users, batches) and
+# from the auth service's current answer; nothing is remembered from earlier requests except to label the shape of the history.
+H_USERS = ['alice', 'bob', 'carol', 'dave', 'ina']
+H_PLAIN = ['alice', 'bob', 'carol', 'dave']
+H_BPS = ['bp1', 'bp2', 'bp3']
+H_TICKS = [1, 250, 2000, 6000, 9999, 12000, 40000]
+H_PRESET = [['create', 'bob', 'bp1', 1], ['create', 'alice', 'bp2', 0], ['create', 'carol', 'bp3', 1]]
+H_ADMIN_ROUTES = {('add', 0): '/api/v1alpha/billing_projects/{billing_project}/users/{user}/add',
+                  ('add', 1): '/billing_projects/{billing_project}/users/add',
+                  ('remove', 0): '/api/v1alpha/billing_projects/{billing_project}/users/{user}/remove',
+                  ('remove', 1): '/billing_projects/{billing_project}/users/{user}/remove'}
+H_LISTS = ['/batches', '/api/v1alpha/batches', '/api/v2alpha/batches', '/api/v1alpha/billing_projects']
+H_CREATE = ['/api/v1alpha/batches/create', '/api/v1alpha/batches/create-fast']
+H_OWN = '/api/v1alpha/batches/{batch_id}/updates/create'
+H_BPREAD = '/api/v1alpha/billing_projects/{billing_project}'
+
+
+class _Clock:
+    """stands in for the `time` module inside gear.time_limited_max_size_cache (the class behind the front end's userdata cache and the
+    other service caches): monotonic_ns follows the world's virtual clock, everything else is the real module"""
+
+    def __init__(self, ctx):
+        import time as _t
+        self._t = _t
+        self._ctx = ctx
+
+    def monotonic_ns(self):
+        w = self._ctx.w
+        return self._t.monotonic_ns() if w is None else self._ctx.clock_base_ns + int(w.now_ms()) * 1_000_000
+
+    def __getattr__(self, k):
+        return getattr(self._t, k)
+
+
+def install_clock(ctx):
+    import gear.time_limited_max_size_cache as tl
+    if not isinstance(tl.time, _Clock):
+        ctx._saved_time = (tl, tl.time)
+    tl.time = _Clock(ctx)
+
+
+def uninstall_clock(ctx):
+    saved = getattr(ctx, '_saved_time', None)
+    if saved is not None:
+        saved[0].time = saved[1]
+        ctx._saved_time = None
+
+
+def _h_status_deny(exp, resp, changed, side_changed, hname, desc, sig_status=None):
+    """the refusal side of the statement for one request of a history -> (classes, failures)"""
+    fails, classes = [], set()
+    st = resp['status']
+    writes = [s for ph, s in resp['sql'] if ph == 'statement' and not _SELECT.match(s)]
+    stmts = [s for ph, s in resp['sql'] if ph == 'statement']
+    status_ok = st in DENY_STATUS[exp] or (exp in ('deny_auth', 'deny_inactive') and is_login_redirect(resp))
+    if resp.get('notsupported'):
+        fails.append((f'denied-request-reached-handler-sql:{hname}', DENY_CLAUSE[exp] + ' (before any handler work)', f'{desc}; SQL so far: {stmts[-3:]}'))
+    elif not status_ok and st == 500 and resp.get('exc') and not writes and exp not in ('deny_auth', 'deny_inactive', 'deny_csrf', 'deny_admin'):
+        classes.add(f'denied_by_server_error:{hname}')
+    elif not status_ok:
+        fails.append((f'{sig_status or SIG[exp]}:{hname}', DENY_CLAUSE[exp], f'{desc}; body {str(resp.get("text"))[:160]}'))
+    if changed or side_changed:
+        fails.append((f'denied-but-changed:{hname}', 'every other caller gets an error and nothing changes',
+                      f'{desc}; changed tables {changed}, side effects {side_changed}; writes {writes[:4]}'))
+    elif writes:
+        fails.append((f'denied-ran-write-sql:{hname}', 'every other caller gets an error and nothing changes (no statement beyond access-control lookups)',
+                      f'{desc}; statements {writes[:4]}'))
+    if exp == 'deny_inactive' and stmts:
+        fails.append((f'unauthenticated-reached-sql:{hname}', 'an unauthenticated caller is refused before any database work', f'{desc}; statements {stmts[:3]}'))
+    return classes, fails
+
+
+H_ALLOW_CLAUSE = {'allow_member': "a member of the batch's billing project can read, cancel or delete the batch",
+                  'allow_owner': 'the owner can add jobs, groups or updates to, and commit, their batch',
+                  'allow_admin': 'developers and the auth service can administer billing projects',
+                  'allow_create': 'a member of a billing project can create batches in it',
+                  'allow_bp_read': 'billing information is visible to members of the billing project',
+                  'allow_authenticated': 'an authenticated active user can use the endpoint'}
+
+
+def _h_status_allow(exp, resp, hname, desc, who, alive, no_404, sig_status=None):
+    """alive: every id in the path names a live object.  As in the static part, a 403 that carries its own reason is a business-rule
+    answer (e.g. cancelling a deleted batch: 'Job Group (1, 0) does not exist') unless every id exists and the route is not administration"""
+    fails, classes = [], set()
+    st = resp['status']
+    bare_403 = st == 403 and (resp.get('reason') in (None, 'Forbidden') or 'inactive' in str(resp.get('text')))
+    if resp.get('notsupported'):
+        classes.add('allow_not_judged_unsupported_sql')
+    elif st == 401 or is_login_redirect(resp) or bare_403 or (st == 403 and alive and exp != 'allow_admin') or (st == 404 and no_404):
+        fails.append((f'{sig_status or who + "-refused"}:{hname}', H_ALLOW_CLAUSE[exp], f'{desc}; body {str(resp.get("text"))[:160]}'))
+    elif st is not None and st >= 500:
+        classes.add('allow_errored_500')
+    elif st is not None and st >= 400:
+        classes.add('allow_answered_4xx')
+    else:
+        classes.add('allow_succeeded')
+    return classes, fails
+
+
+def run_history(ctx, case):
+    """-> (nontrivial, classes, failures); stops at the first step that fails"""
+    from urllib.parse import urlencode
+    ctx.hist_begin()
+    w, loop = ctx.w, ctx.loop
+    hnames = {}
+    for m, t, h in ctx.routes:
+        hnames.setdefault((m, t), h)
+    tables = ctx.tables()
+    grace = ctx.auth_grace_ms
+    batches = [ctx.B]                 # batch ref -> id | None (creation refused)
+    auth = {u: ['active', None] for u in H_USERS + ['dev', 'auth']}        # user -> [state at the auth service, virtual ms of the last change]
+    auth['ina'] = ['inactive', None]
+    last = {}                         # (user, kind, target) -> dict(m='allow'|'deny', ok=answered without error)
+    member_t = {}                     # (bp, user) -> virtual ms of the last actual membership change
+    classes, fails, trace = set(), [], []
+    shapes = set()
+    evts = ('cancel_batch_state_changed', 'delete_batch_state_changed')
+
+    def observe():
+        """-> (snapshot, side effects as they are, the same with the two notification events re-armed for the next step)"""
+        sn, sd = w.snap(tables), w.side_effects()
+        for k in evts:
+            w.app[k].clear()
+        return sn, sd, dict(sd, events={k: False for k in sd['events']})
+
+    def send(user, cookie, method, tmpl, path, variant=None, form=None):
+        body, ctype = b'', None
+        if method not in SAFE:
+            if form is not None or not tmpl.startswith('/api/'):
+                f = dict(form if form is not None else {'q': ''})
+                if cookie:
+                    f['_csrf'] = 'csrf-tok'
+                body, ctype = urlencode(f).encode(), 'application/x-www-form-urlencoded'
+            else:
+                body, ctype = ctx.body_for(method, tmpl, variant or {}, None)
+        h, session = {}, None
+        if ctype:
+            h['Content-Type'] = ctype
+        if cookie:
+            session = {'session_id': 'tok-' + user}
+            h['Cookie'] = 'gcp_session=opaque; _csrf=csrf-tok'
+            if tmpl.startswith('/api/'):
+                h['X-CSRF-Token'] = 'csrf-tok'
+        else:
+            h['Authorization'] = 'Bearer tok-' + user
+        resp = loop.run_until_complete(w.request(method, path, headers=h, body=body, session=session))
+        resp['path'] = path
+        return resp
+
+    snap, _, side = observe()
+    for k, step in enumerate(case['steps']):
+        kind = step[0]
+        now = w.now_ms()
+        if kind == 'tick':
+            w.tick(int(step[1]))
+            trace.append(f'{k}: +{step[1]} ms')
+            continue
+        if kind == 'state':
+            _, user, state = step
+            if auth[user][0] != state:
+                w.tokens['tok-' + user]['state'] = state
+                auth[user] = [state, now]
+            trace.append(f'{k}: auth service now says {user} is {state}')
+            continue
+        mem = {(r['billing_project'], r['user_cs']) for r in snap['billing_project_users']}
+        bat = {r['id']: r for r in snap['batches']}
+        if kind == 'member' and step[4] == 'db':
+            _, op, bp, user, _via = step
+            s = w.engine.connect()
+            try:
+                if op == 'add' and (bp, user) not in mem:
+                    s.execute('INSERT INTO billing_project_users (billing_project, `user`, user_cs) VALUES (%s, %s, %s)', (bp, user, user))
+                elif op == 'remove' and (bp, user) in mem:
+                    s.execute('DELETE FROM billing_project_users WHERE billing_project = %s AND user_cs = %s', (bp, user))
+            finally:
+                w.engine.close_session(s)
+            snap, _, side = observe()
+            if ((bp, user) in mem) != ((bp, user) in {(r['billing_project'], r['user_cs']) for r in snap['billing_project_users']}):
+                member_t[(bp, user)] = now
+                classes.add('membership_changed_db')
+            trace.append(f'{k}: {op} {user} {"to" if op == "add" else "from"} {bp} (database)')
+            continue
+
+        # ---- a request: who, what, and what the statement says about it right now
+        cookie, variant, form, bind_desc = 0, None, None, ''
+        skey = None           # (user, kind, target) for shape labels
+        bp_of = None
+        alive, no_404 = True, False
+        if kind == 'req':
+            _, user, (method, tmpl), ref, cookie = step
+            bid = batches[ref] if 0 <= ref < len(batches) else None
+            row = bat.get(bid) if bid is not None else None
+            path = ctx.path_for(tmpl, {'batch_id': bid if row is not None else 'missing', 'job_id': 1, 'job_group_id': 0})
+            if row is None:
+                mexp = 'deny_missing'
+            else:
+                bp_of = row['billing_project']
+                mexp = 'allow_member' if (bp_of, user) in mem else 'deny_nonmember'
+                skey = (user, 'retry', bid)
+                alive = not row['deleted']
+                no_404 = alive and (method, tmpl) in CORE_NO_404 and '{job_id}' not in tmpl and '{job_group_id}' not in tmpl
+        elif kind == 'own':
+            _, user, ref = step
+            method, tmpl = 'POST', H_OWN
+            bid = batches[ref] if 0 <= ref < len(batches) else None
+            row = bat.get(bid) if bid is not None else None
+            path = ctx.path_for(tmpl, {'batch_id': bid if row is not None else 'missing'})
+            variant = {'token': 'fresh'}
+            if row is None:
+                mexp = 'deny_missing'
+            else:
+                owner, member = row['user'] == user, (row['billing_project'], user) in mem
+                alive = not row['deleted']
+                mexp = ('allow_owner' if member else 'either') if owner else ('deny_owner_only' if member else 'deny_nonmember_owner_only')
+        elif kind == 'create':
+            _, user, bp, fast = step
+            method, tmpl = 'POST', H_CREATE[1 if fast else 0]
+            path = tmpl
+            variant = {'bp': bp, 'token': 'fresh'}
+            mexp = 'allow_create' if (bp, user) in mem else 'deny_bp'
+            skey, bp_of = (user, 'create', bp), bp
+        elif kind in ('member', 'try_admin'):
+            if kind == 'member':
+                _, op, bp, target, via = step
+                user, ui = ('auth' if via == 'api_auth' else 'dev'), int(via == 'ui_dev')
+                mexp = 'allow_admin'
+            else:
+                _, user, op, bp, target, ui = step
+                mexp = 'deny_admin'
+            method, tmpl = 'POST', H_ADMIN_ROUTES[(op, int(bool(ui)))]
+            cookie = int(bool(ui))
+            path = ctx.path_for(tmpl, {'billing_project': bp, 'user': target})
+            if ui:
+                form = {'user': target} if op == 'add' else {}
+            bind_desc = f' ({op} {target})'
+        elif kind == 'list':
+            _, user, tmpl = step
+            method, path = 'GET', tmpl
+            mexp = 'allow_authenticated'
+        elif kind == 'bpread':
+            _, user, bp = step
+            method, tmpl = 'GET', H_BPREAD
+            path = ctx.path_for(tmpl, {'billing_project': bp})
+            mexp = 'allow_bp_read' if (bp, user) in mem else 'deny_bp_read'
+            skey, bp_of = (user, 'bpread', bp), bp
+        else:
+            raise ValueError(f'unknown history step {step}')
+        hname = hnames.get((method, tmpl))
+        if hname is None:
+            classes.add('route_gone_skipped')
+            continue
+        resp = send(user, cookie, method, tmpl, path, variant, form)
+        snap2, side2, side_next = observe()
+        changed = sorted(t for t in snap2 if snap2[t] != snap[t])
+        side_changed = sorted(x for x in side2 if side2[x] != side[x])
+        st = resp['status']
+
+        # ---- the auth service's answer may be up to `grace` old (documented userdata cache); membership may not
+        a_state, a_t = auth[user]
+        in_grace = a_t is not None and now - a_t < grace
+        if in_grace:
+            looks_inactive = st == 403 and 'inactive' in str(resp.get('text'))
+            eff_state = 'inactive' if looks_inactive else 'active'
+        else:
+            eff_state = a_state
+        exp = 'deny_inactive' if eff_state == 'inactive' else mexp
+        if a_t is not None and user in H_USERS:
+            lab = ('deactivated' if a_state == 'inactive' else 'reactivated') + '_then_retry'
+            shapes.add(lab)
+            classes.add(lab + ('_within_cache_lifetime' if in_grace else '_after_cache_lifetime'))
+
+        # ---- shape of the history for this (user, target): did the answer have to change since the last time?
+        shape = None
+        if skey is not None and a_state == 'active' and not in_grace and mexp != 'either':
+            m_now = 'allow' if mexp.startswith('allow') else 'deny'
+            prev = last.get(skey)
+            if prev is not None and prev['m'] != m_now and prev['ok'] == (prev['m'] == 'allow'):
+                shape = ('revoked' if m_now == 'deny' else 'granted') + '_then_' + skey[1]
+                shapes.add(shape)
+                classes.add(shape)
+                dt = now - member_t.get((bp_of, user), now)
+                classes.add(shape + ('_immediately' if dt == 0 else '_within_10s' if dt < 10000 else '_after_10s'))
+                if method not in SAFE:
+                    classes.add(shape + '_mutating_request')
+            elif prev is not None and prev['m'] == m_now:
+                classes.add('same_answer_again')
+            last[skey] = dict(m=m_now, ok=st is not None and st < 400 and not is_login_redirect(resp))
+
+        desc = (f"step {k} {step}: {method} {path}{bind_desc} as {user}{' (cookie)' if cookie else ''} -> status {st}"
+                f"{' location ' + str(resp.get('location')) if resp.get('location') else ''}{' exc ' + resp['exc'] if resp.get('exc') else ''}"
+                f"{' NotSupported ' + resp['notsupported'] if resp.get('notsupported') else ''}; the rows at that moment say {exp}")
+        if bp_of:
+            desc += f" (members of {bp_of}: {sorted(u for b, u in mem if b == bp_of)})"
+        trace.append(f'{k}: {method} {path}{bind_desc} as {user} -> {st}' + (f' ({len(changed)} tables changed)' if changed else ''))
+        classes.update((exp, f'step_{kind}', f'class_{route_class(method, tmpl)}'))
+        if exp.startswith('deny_'):
+            sig = None
+            if shape is not None and shape.startswith('revoked'):
+                sig = 'revoked-member-still-allowed'
+            c2, f2 = _h_status_deny(exp, resp, changed, side_changed, hname, desc, sig)
+        elif exp == 'either':
+            c2, f2 = set(), []
+        else:
+            sig = 'added-member-still-refused' if shape is not None and shape.startswith('granted') else None
+            who = {'allow_admin': user, 'allow_owner': 'owner', 'allow_authenticated': 'user'}.get(exp, 'member')
+            c2, f2 = _h_status_allow(exp, resp, hname, desc, who, alive, no_404, sig)
+            if kind == 'list' and resp.get('json') is not None and not f2:
+                j = resp['json']
+                if tmpl == '/api/v1alpha/billing_projects':
+                    shown = [x.get('billing_project') for x in j if isinstance(x, dict)] if isinstance(j, list) else []
+                    leak = [b for b in shown if (b, user) not in mem]
+                    if leak:
+                        f2.append((f'list-leaks-billing-project:{hname}', 'billing information is visible only to members of the billing project, '
+                                   'developers and the auth service', f'{desc}; response lists {leak}'))
+                else:
+                    ids = set()
+                    if isinstance(j, dict):
+                        ids.update(b.get('id') for b in (j.get('batches') or []) if isinstance(b, dict))
+                        ids.update(j.get('batch_ids') or [])
+                    leak = sorted(i for i in ids if i in bat and (bat[i]['billing_project'], user) not in mem)
+                    if leak:
+                        f2.append((f'list-leaks-batch:{hname}', "a user can read a batch only if they belong to the batch's billing project",
+                                   f'{desc}; response lists batch(es) {leak}'))
+        classes |= c2
+        if kind == 'create':
+            new_ids = sorted(r['id'] for r in snap2['batches'] if r['id'] not in bat)
+            batches.append(new_ids[0] if len(new_ids) == 1 and st is not None and st < 400 else None)
+        if kind == 'member':
+            was = (bp, target) in mem
+            is_now = (bp, target) in {(r['billing_project'], r['user_cs']) for r in snap2['billing_project_users']}
+            if was != is_now:
+                member_t[(bp, target)] = now
+                classes.add('membership_changed_by_admin_route')
+        snap, side = snap2, side_next
+        if f2:
+            hist_txt = ' | '.join(trace[-12:])
+            fails.extend((s, c, f'{msg}. History: {hist_txt}') for s, c, msg in f2)
+            break
+        if resp.get('notsupported'):
+            break         # the connection state after an unsupported statement is not trusted: the history ends here
+    nontrivial = bool(shapes)
+    if not shapes:
+        classes.add('no_answer_had_to_change')
+    classes.add('kind_history')
+    return nontrivial, sorted(classes), fails
+
+
+def enum_histories(routes):
+    """systematic part: every billing_project_users_only route x {owner alice, member bob} x {no delay, 3 s}: granted -> removed -> the
+    same request again -> re-added -> again (the administration path alternates between the real routes and the database)"""
+    vias = ['api_dev', 'db', 'ui_dev', 'api_auth']
+    n = 0
+    for m, t, h in routes:
+        if route_class(m, t) != 'batch':
+            continue
+        for user in ('alice', 'bob'):
+            for gap in (0, 3000):
+                r = ['req', user, [m, t], 0, 0]
+                wait = [['tick', gap]] if gap else []
+                steps = [r, ['member', 'remove', 'bp1', user, vias[n % 4]]] + wait + [r, ['member', 'add', 'bp1', user, vias[(n + 1) % 4]]] + wait + [r]
+                n += 1
+                yield dict(kind='hist', steps=steps)
+
+
+def _hist_strategy(routes):
+    """histories BY CONSTRUCTION: a model of membership and batches is carried along while drawing, so that the wanted shapes
+    (granted -> removed -> same user, same batch again; refused -> added -> again; the same for batch creation, billing reads and the
+    account state) are laid out on purpose, with unrelated traffic and virtual time in between"""
+    from hypothesis import strategies as st
+    broutes = [[m, t] for m, t, h in routes if route_class(m, t) == 'batch']
+    gets = [r for r in broutes if r[0] in SAFE]
+    muts = [r for r in broutes if r[0] not in SAFE] or gets
+    core = [r for r in broutes if tuple(r) in CORE_NO_404 and '{job' not in r[1]] or gets
+    lists = [t for t in H_LISTS if any(t == x[1] for x in routes)]
+
+    @st.composite
+    def hist(draw):
+        def pick(xs):
+            return draw(st.sampled_from(xs))
+        mem = {bp: set(us) for bp, us in MEMBERS.items()}
+        bats = [('alice', 'bp1')]        # model of the batch refs: (owner, bp) | None
+        steps = []
+
+        def create(u, bp, fast=None):
+            steps.append(['create', u, bp, pick([0, 1]) if fast is None else fast])
+            bats.append((u, bp) if u in mem[bp] else None)
+
+        def live():
+            return [i for i, b in enumerate(bats) if b is not None]
+
+        def req(u, b, how=None):
+            how = how or pick(['get', 'get', 'core', 'mut'])
+            steps.append(['req', u, pick(gets if how == 'get' else core if how == 'core' else muts), b, pick([0, 0, 1])])
+
+        def change(op, bp, u):
+            steps.append(['member', op, bp, u, pick(['api_dev', 'api_auth', 'ui_dev', 'db'])])
+            (mem[bp].add if op == 'add' else mem[bp].discard)(u)
+
+        def gap(pool=(None, None, 1, 250, 2000, 6000, 9999, 12000)):
+            ms = pick(list(pool))
+            if ms:
+                steps.append(['tick', ms])
+
+        def noise(n, avoid=None, gentle=False):
+            for _ in range(n):
+                k = pick(['req', 'req', 'req', 'create', 'member', 'tick', 'list', 'bpread', 'own', 'try_admin', 'missing', 'state'])
+                u = pick([x for x in H_USERS if x != avoid])
+                if k == 'req':
+                    req(u, pick(live()), 'get' if gentle else None)
+                elif k == 'create':
+                    create(u, pick(H_BPS))
+                elif k == 'member':
+                    bp = pick(H_BPS)
+                    change('remove' if u in mem[bp] and pick([0, 1]) else 'add', bp, u)
+                elif k == 'tick':
+                    steps.append(['tick', pick(H_TICKS)])
+                elif k == 'list' and lists:
+                    steps.append(['list', u, pick(lists)])
+                elif k == 'bpread':
+                    steps.append(['bpread', u, pick(H_BPS)])
+                elif k == 'own':
+                    steps.append(['own', u, pick(live())])
+                elif k == 'try_admin':
+                    steps.append(['try_admin', u, pick(['add', 'remove']), pick(H_BPS), pick(H_USERS), pick([0, 1])])
+                elif k == 'missing':
+                    req(u, 99)
+                elif k == 'state' and not gentle:
+                    steps.append(['state', u, pick(['inactive', 'active'])])
+
+        def revoke(u, b, what='retry'):
+            bp = bats[b][1] if what == 'retry' else b
+            if u not in mem[bp]:
+                change('add', bp, u)
+
+            def ask(how=None):
+                if what == 'retry':
+                    req(u, b, how)
+                elif what == 'create':
+                    create(u, bp)
+                else:
+                    steps.append(['bpread', u, bp])
+            ask('get')                          # granted
+            noise(pick([0, 0, 1, 2]), avoid=u, gentle=True)
+            change('remove', bp, u)
+            gap()
+            ask()                               # must be refused now, and nothing may change
+            if pick([0, 1]):
+                gap()
+                ask('mut')
+
+        def grant(u, b, what='retry'):
+            bp = bats[b][1] if what == 'retry' else b
+            if u in mem[bp]:
+                change('remove', bp, u)
+
+            def ask(how=None):
+                if what == 'retry':
+                    req(u, b, how)
+                elif what == 'create':
+                    create(u, bp)
+                else:
+                    steps.append(['bpread', u, bp])
+            ask()                               # refused
+            noise(pick([0, 0, 1, 2]), avoid=u, gentle=True)
+            change('add', bp, u)
+            gap()
+            ask('core' if what == 'retry' else None)      # must be allowed now
+            if pick([0, 1]):
+                gap()
+                ask('get')
+
+        for s in H_PRESET:                      # batches of other owners in other projects, made through the real routes
+            create(s[1], s[2], s[3])
+        noise(pick([0, 0, 1, 2]))
+        for _ in range(pick([1, 1, 2])):
+            shape = pick(['revoke', 'revoke', 'revoke', 'grant', 'grant', 'flap', 'create', 'bpread', 'account', 'free'])
+            u = pick(H_PLAIN)
+            if shape in ('revoke', 'grant', 'flap'):
+                b = pick(live())
+                if shape == 'revoke':
+                    revoke(u, b)
+                elif shape == 'grant':
+                    grant(u, b)
+                else:
+                    revoke(u, b)
+                    gap()
+                    grant(u, b)
+            elif shape in ('create', 'bpread'):
+                bp = pick(H_BPS)
+                (revoke if pick([0, 1]) else grant)(u, bp, shape)
+                if pick([0, 1]):
+                    (revoke if u in mem[bp] else grant)(u, bp, shape)
+            elif shape == 'account':
+                u = pick(H_USERS)
+                b = pick(live())
+                if u not in mem[bats[b][1]]:
+                    change('add', bats[b][1], u)
+                first = 'active' if u == 'ina' else 'inactive'
+                req(u, b, 'get')
+                steps.append(['state', u, first])
+                gap((None, 1, 2000, 9999, 10000, 12000, 40000))
+                req(u, b)
+                if pick([0, 1]):
+                    steps.append(['state', u, 'inactive' if first == 'active' else 'active'])
+                    gap((None, 1, 2000, 9999, 10000, 12000, 40000))
+                    req(u, b)
+            else:
+                noise(pick([3, 5, 8]))
+        noise(pick([0, 0, 1, 3]))
+        return dict(kind='hist', steps=steps)
+    return hist()
+
+
 N_SHARDS = 16
 
 
 def plan(tier):
     n = 800 if tier == 'quick' else 30000
-    return [dict(kind='enum', part=i, nparts=12) for i in range(12)] + [dict(kind='hyp', n=n) for _ in range(4)]
+    nh = 80 if tier == 'quick' else 8000
+    return ([dict(kind='enum', part=i, nparts=12) for i in range(12)] + [dict(kind='hyp', n=n) for _ in range(4)]
+            + [dict(kind='hist_enum')] + [dict(kind='hist', n=nh) for _ in range(6)])
 
 
 def _strategy(routes):
@@ -569,7 +1135,19 @@ def run_shard(spec, seed, tier):
             res.notes['routes_enumerated'] = len(mine)
             res.notes['world_builds'] = ctx.builds
             return res
+        if spec['kind'] == 'hist_enum':
+            for case in enum_histories(routes):
+                nt, cls, fl = run_history(ctx, case)
+                res.case(case, nt, list(cls) + ['kind_history_systematic'])
+                for s, c, m in fl:
+                    res.fail(s, c, m, case)
+            res.notes['world_builds'] = ctx.builds
+            return res
         from vlib.hyp import search
+        if spec['kind'] == 'hist':
+            search(res, PROPERTY, _hist_strategy(routes), lambda case: run_history(ctx, case), spec['n'], seed)
+            res.notes['world_builds'] = ctx.builds
+            return res
 
         def check(case):
             exp = expectation(case['route'][0], case['route'][1], case['caller'], case['bind'], case['variant'])
@@ -592,7 +1170,11 @@ def replay(case):
     ctx = Ctx(loop)
     try:
         case = {k: v for k, v in case.items() if not k.startswith('_')}
-        nt, cls, fl = run_one(ctx, case, None, generated=bool(case.get('gen')))
+        if case.get('kind') == 'hist':
+            ctx.ensure()
+            nt, cls, fl = run_history(ctx, case)
+        else:
+            nt, cls, fl = run_one(ctx, case, None, generated=bool(case.get('gen')))
     finally:
         try:
             ctx.close()
